@@ -127,7 +127,11 @@ def run_select(rows, key, via, layout_rng=None):
             hk = sf.HLoc[tuple(py_sel(s) for s in key)]
         if via == 'loc_to_iloc':
             return {'k': 'positions', 'ps': norm_positions(ih.loc_to_iloc(hk), n)}
-        pos = {t: i for i, t in enumerate(labels)}
+        # labels are matched by their encoded value: a single selected row comes back with its date leaf as a datetime.date (equal to, but
+        # hashing differently from, the datetime64 that iteration yields)
+        import json as _json
+        _k = lambda t: _json.dumps([P.enc(x) for x in t])
+        pos = {_k(t): i for i, t in enumerate(labels)}
         if via == 'ih_loc':
             r = ih.loc[hk]
             got = [tuple(x) for x in r] if isinstance(r, sf.IndexHierarchy) else [tuple(r)]
@@ -140,7 +144,7 @@ def run_select(rows, key, via, layout_rng=None):
             r = f.loc[hk]
             vals = r['p'].values if isinstance(r, sf.Frame) else [r['p']]
             return {'k': 'positions', 'ps': [int(x) // 2 for x in vals]}
-        return {'k': 'positions', 'ps': [pos[t] for t in got]}
+        return {'k': 'positions', 'ps': [pos[_k(t)] for t in got]}
     except Exception as e:
         return {'k': 'err', 'cat': P.err_category(e), 'msg': str(e)[:100]}
 
